@@ -108,6 +108,33 @@ func randomCfg(g *rand.Rand, seed int64, family string) SchedCfg {
 	if b.MaxInflightBytes != 0 && b.MaxInflightBytes < b.MaxSize {
 		b.MaxInflightBytes = 0
 	}
+	switch family {
+	case "dupvote":
+		b.Async = true
+	case "snaplead":
+		b.MaxInflightBytes = 300
+		if b.MaxSize > 300 {
+			b.MaxSize = 200
+		}
+	case "rereads":
+		b.Lease = false
+		if len(s.Voters) < 5 {
+			s.Voters = []uint64{1, 2, 3, 4, 5}
+			s.Learners = nil
+		}
+	}
+	s.Strict = g.Intn(2) == 0
+	switch family {
+	case "snapapply":
+		b.Async = true
+		s.Strict = false
+	case "aba":
+		b.Async = true
+		if len(s.Voters) < 5 {
+			s.Voters = []uint64{1, 2, 3, 4, 5}
+			s.Learners = nil
+		}
+	}
 	s.Base = b
 	return s
 }
@@ -297,6 +324,8 @@ func (x *gen) next(phase string) string {
 			wop{6, func() string { return fmt.Sprintf("dup %d", k()) }},
 			wop{6, func() string { return fmt.Sprintf("sub %d", anyAlive()) }},
 			wop{4, func() string { return fmt.Sprintf("appendthread %d", anyAlive()) }},
+			wop{1, func() string { return fmt.Sprintf("appendthread %d hold", anyAlive()) }},
+			wop{2, func() string { return fmt.Sprintf("ackthread %d", anyAlive()) }},
 			wop{4, func() string { return fmt.Sprintf("applythread %d", anyAlive()) }},
 			wop{2, func() string { return fmt.Sprintf("campaign %d", anyAlive()) }},
 			wop{2, func() string { return fmt.Sprintf("unreach %d %d", lead(), x.nid(x.pickAny())) }},
@@ -314,6 +343,8 @@ func (x *gen) next(phase string) string {
 			wop{8, func() string { return fmt.Sprintf("restart %d", x.nid(x.pickAny())) }},
 			wop{6, func() string { return fmt.Sprintf("sub %d", anyAlive()) }},
 			wop{4, func() string { return fmt.Sprintf("appendthread %d", anyAlive()) }},
+			wop{1, func() string { return fmt.Sprintf("appendthread %d hold", anyAlive()) }},
+			wop{2, func() string { return fmt.Sprintf("ackthread %d", anyAlive()) }},
 			wop{4, func() string { return fmt.Sprintf("applythread %d", anyAlive()) }},
 			wop{3, func() string { return fmt.Sprintf("drop %d", k()) }},
 		))
@@ -371,7 +402,7 @@ func (x *gen) next(phase string) string {
 	return "tickall"
 }
 
-var phases = []string{"healthy", "chaos", "partition", "crashy", "confchange", "snapshots", "transfer", "reads", "limits", "stall", "dsnap", "fig8snap"}
+var phases = []string{"healthy", "chaos", "partition", "crashy", "confchange", "snapshots", "transfer", "reads", "limits", "stall", "dsnap", "fig8snap", "dupvote", "snaplead", "rereads", "snapapply", "aba"}
 
 func (x *gen) isLeader(n *Node) bool {
 	if !n.alive || n.rn == nil {
@@ -660,6 +691,16 @@ func runRandom(s SchedCfg, nops int, tr *traceWriter) *Cluster {
 			x.directedDoubleSnapshot()
 		case "fig8snap":
 			x.directedFigure8Snap()
+		case "dupvote":
+			x.directedDupVote()
+		case "snaplead":
+			x.directedSnapLead()
+		case "rereads":
+			x.directedReReads()
+		case "snapapply":
+			x.directedSnapApply()
+		case "aba":
+			x.directedABA()
 		default:
 			for i, l := 0, 15+x.g.Intn(50); i < l && c.ops < nops; i++ {
 				c.exec(x.next(phase))
